@@ -33,7 +33,12 @@ type LoggerWrapper struct {
 // It implements the io.Writer interface, allowing LoggerWrapper to be
 // used anywhere an io.Writer is expected.
 func (m *LoggerWrapper) Write(b []byte) (n int, err error) {
-	m.logger.Write(b)
+	l := m.logger
+	if l == nil {
+		// Not bound yet (before Refresh or after Destroy): use the default logger.
+		l = defaultLogger
+	}
+	l.Write(b)
 	return len(b), nil
 }
 
